@@ -17,4 +17,5 @@ func reg1(name string, s func() any, f func(any)) {
 
 func init() {
 	reg0("C17Clean", HarnessC17Clean)
+	reg1("C10Parse", SetupC10Parse, HarnessC10Parse)
 }
